@@ -153,6 +153,10 @@ func checkHeapAdapter(c *Ctx, p *core.Prog) {
 	if !c.R.Anchor(swap != nil && len(swap.Blocks) > 0, "pq heap Swap") || !c.R.Anchor(push != nil && len(push.Blocks) > 0, "pq heap Push") {
 		return
 	}
+	// R20.5: container/heap's contract - Push grows the array by exactly the pushed element, Pop shrinks it by exactly one
+	// (the element it returns), Swap and Less leave its length alone. Decided by a length algebra along every path.
+	checkHeapLengths(c, p, heapT, itemsField, push, lookup(types.NewPointer(heapT), "Pop"), swap)
+
 	// every dynamic call of the setIndex field, directly or through a helper that only forwards its
 	// (value, index) parameters to the callback under the nil guard
 	type sic struct {
@@ -429,4 +433,154 @@ func checkSetEqual(c *Ctx, p *core.Prog, fn *ssa.Function, typ string) {
 		return
 	}
 	c.R.Check(bad == "", "R20.4", key, p.Pos(fn.Pos()), fmt.Sprintf("%d true return(s): sizes compared equal before the containment loop, or containment tested in both directions", n), bad)
+}
+
+
+// checkHeapLengths: R20.5. Along every path from the entry of the method to a return, the length of the slice that the
+// items field holds at the return is the length at entry plus delta (Push +1, Pop -1, Swap 0). Lengths are evaluated as
+// linear forms: len(field at entry) = n, x[a:b] -> b-a, append(x, e1..ek) -> len(x)+k, append(x, y...) -> len(x)+len(y),
+// make([]T, k) -> k. A path on which the length is not such a form is undecided.
+func checkHeapLengths(c *Ctx, p *core.Prog, heapT *types.Named, itemsField string, push, pop, swap *ssa.Function) {
+	if !c.R.Anchor(pop != nil && len(pop.Blocks) > 0, "pq heap Pop") {
+		return
+	}
+	type job struct {
+		fn    *ssa.Function
+		delta int64
+		what  string
+	}
+	nPaths := 0
+	for _, j := range []job{{push, 1, "Push grows the array by exactly one element"}, {pop, -1, "Pop shrinks the array by exactly one element"}, {swap, 0, "Swap leaves the length of the array alone"}} {
+		fn := j.fn
+		isItems := func(addr ssa.Value) bool {
+			fa, ok := addr.(*ssa.FieldAddr)
+			return ok && core.FieldName(fa) == itemsField && core.StructOf(fa.X.Type()) == core.StructOf(heapT)
+		}
+		bad := ""
+		for _, rb := range fn.Blocks {
+			if _, isRet := rb.Instrs[len(rb.Instrs)-1].(*ssa.Return); !isRet {
+				continue
+			}
+			paths, ok := eng.EnumPaths(fn.Blocks[0], rb, nil, 256)
+			if !ok {
+				bad = "too many paths"
+				break
+			}
+			for _, path := range paths {
+				nPaths++
+				n := core.Lin{Coef: map[string]int64{"n": 1}}
+				cur, curOK := n, true
+				lens := map[ssa.Value]core.Lin{}  // slice value -> its length
+				ints := map[ssa.Value]core.Lin{}  // integer value -> linear form
+				var intOf func(v ssa.Value) (core.Lin, bool)
+				var lenOf func(v ssa.Value) (core.Lin, bool)
+				intOf = func(v ssa.Value) (core.Lin, bool) {
+					if l, ok := ints[v]; ok {
+						return l, true
+					}
+					switch x := v.(type) {
+					case *ssa.Const:
+						if k, ok := core.ConstInt(x); ok {
+							return core.Lin{Coef: map[string]int64{}, Const: k}, true
+						}
+					case *ssa.BinOp:
+						a, ok1 := intOf(x.X)
+						b, ok2 := intOf(x.Y)
+						if ok1 && ok2 && x.Op == token.ADD {
+							return a.Add(b, 1), true
+						}
+						if ok1 && ok2 && x.Op == token.SUB {
+							return a.Add(b, -1), true
+						}
+					}
+					return core.Lin{}, false
+				}
+				lenOf = func(v ssa.Value) (core.Lin, bool) {
+					if l, ok := lens[v]; ok {
+						return l, true
+					}
+					return core.Lin{}, false
+				}
+				var prev *ssa.BasicBlock
+				for _, b := range path.Blocks {
+					for _, in := range b.Instrs {
+						switch x := in.(type) {
+						case *ssa.Phi:
+							for k, pr := range b.Preds {
+								if pr != prev {
+									continue
+								}
+								if l, ok := lenOf(x.Edges[k]); ok {
+									lens[x] = l
+								}
+								if l, ok := intOf(x.Edges[k]); ok {
+									ints[x] = l
+								}
+							}
+						case *ssa.UnOp:
+							if x.Op == token.MUL && isItems(x.X) && curOK {
+								lens[x] = cur
+							}
+						case *ssa.Store:
+							if isItems(x.Addr) {
+								cur, curOK = lenOf(x.Val)
+							}
+						case *ssa.Slice:
+							base, ok := lenOf(x.X)
+							if !ok {
+								continue
+							}
+							lo := core.Lin{Coef: map[string]int64{}}
+							hi := base
+							okB := true
+							if x.Low != nil {
+								lo, okB = intOf(x.Low)
+							}
+							if x.High != nil && okB {
+								hi, okB = intOf(x.High)
+							}
+							if okB {
+								lens[x] = hi.Add(lo, -1)
+							}
+						case *ssa.MakeSlice:
+							if l, ok := intOf(x.Len); ok {
+								lens[x] = l
+							}
+						case *ssa.Call:
+							bi, isB := x.Call.Value.(*ssa.Builtin)
+							if !isB {
+								continue
+							}
+							switch bi.Name() {
+							case "len":
+								if l, ok := lenOf(x.Call.Args[0]); ok {
+									ints[x] = l
+								}
+							case "append":
+								base, ok := lenOf(x.Call.Args[0])
+								if !ok || len(x.Call.Args) != 2 {
+									continue
+								}
+								if els := varargElems(x.Call.Args[1]); els != nil {
+									lens[x] = base.Add(core.Lin{Coef: map[string]int64{}, Const: int64(len(els))}, 1)
+								} else if add, ok := lenOf(x.Call.Args[1]); ok {
+									lens[x] = base.Add(add, 1)
+								}
+							}
+						}
+					}
+					prev = b
+				}
+				want := n.Add(core.Lin{Coef: map[string]int64{}, Const: j.delta}, 1)
+				switch {
+				case !curOK:
+					bad = "on a path the length of the array stored last is not a linear form of the length at entry"
+				case !cur.Equal(want):
+					bad = fmt.Sprintf("on a path the array has length %s at the return (n = length at entry), expected %s", cur.String(), want.String())
+				}
+			}
+		}
+		c.R.Check(bad == "", "R20.5", "pqHeap: "+j.what+" on every path", p.Pos(fn.Pos()), "length algebra over every entry-to-return path", bad+": container/heap moves the element to remove to the last cell and expects Pop to drop exactly that cell (Push: to add exactly the new one); otherwise an element is handed out and stays queued, or is lost")
+	}
+	c.R.RequireMin("R20.5", "entry-to-return paths of Push/Pop/Swap evaluated", nPaths, 3)
 }
